@@ -129,7 +129,9 @@ Effective ==
     [] cfg.dev \in {"frmkey", "foptskey"} -> FALSE                       \* payload keys are not MIC inputs
     [] cfg.dev = "fkey" -> cfg.dir = "up"
     [] cfg.dev = "skey" -> cfg.dir = "down" \/ cfg.ver = 1
-    [] cfg.dev = "fcnthigh" -> TRUE
+    [] cfg.dev = "fcnthigh" -> \* the wrong upper half takes effect once the receiver has set it; before that the receiver
+                               \* validates with the 16 transmitted bits only, which is the sender's counter iff its upper half is zero
+                               Pos(rlog, "SetFCnt") < Pos(rlog, "Validate") \/ cfg.hi # "zero"
     [] cfg.dev = "conf" -> cfg.ver = 1 /\ cfg.ack
     [] cfg.dev = "confhigh" -> FALSE                                      \* only ConfFCnt mod 2^16 is authenticated
     [] cfg.dev \in {"txdr", "txch"} -> cfg.dir = "up" /\ cfg.ver = 1
